@@ -20,7 +20,8 @@ LEVEL_TEXT = ("Lean 4 theorems, for all batch sizes, contents, column counts, bo
               "border[..., f]; pairing mode row i = (t_i, x_i); the factors are the batches the three C09 cursors "
               "serve, for every history.  Tied to /repo on every run by exact differential execution of "
               "make_cartesian_product and CubicMeshPDENonStatio.get_batch; Holds.C14 (the row formula, per facet) is "
-              "evaluated on the implementation's own batches.")
+              "evaluated on the implementation's own batches."
+              "  Holds.C14 itself is proved of every batch record of every get_batch history of the model, both product modes (holdsC14_model, holdsC14_runNS).")
 LEVEL_NOTE = ("Trusted: Lean kernel + {propext, Classical.choice, Quot.sound}; the hand-written model's tie to the code is "
               "differential (sizes 1..6, dims 1-2); jnp.repeat / jnp.tile / jnp.concatenate are modelled as list "
               "functions, dynamic_slice as C09's clamped slice; the factors are read off the generator's post-state "
